@@ -396,3 +396,21 @@ def run(ctx: Context) -> None:  # noqa: F811
     with ctx.rep.borrow({"C11.R3": ("C10.R12", "TLS to the origin and the origin request go onto the tunnel stream only after the proxy said 2xx - otherwise that stream is a plain "
                                                 "connection to the PROXY, and the request is sent to a host it was never meant for:")}):
         c11.run(ctx)
+
+
+
+_core_run_r13 = run
+
+
+def run(ctx: Context) -> None:  # noqa: F811
+    _core_run_r13(ctx)
+    if ctx.rep._borrow is not None:
+        return
+    from . import support
+
+    ctx.rep.rule("C10.R13", "what a connection offers in its TLS handshake depends on its own configuration only: the establishing modules modify no per-process object "
+                            "(class-level / module-level container, mutable default argument) in place - checked on the source as written, before constants are inlined")
+    support.no_shared_mutable_state(
+        ctx, "C10.R13",
+        tuple(f"httpcore._{t}.{n}" for t in ("async", "sync") for n in ("connection", "http_proxy", "socks_proxy", "connection_pool")) + ("httpcore._ssl", "httpcore._utils", "httpcore._models"),
+        "the object is shared by every connection of the process, so the ALPN list / TLS settings / headers one connection (http2=True) builds are what the next one (http2=False) starts from")
